@@ -1141,16 +1141,29 @@ impl<'a> UserModel<'a> {
                     break;
                 }
             }
-            // SpillCells are transient; save their style as EmptyCell so undo can
-            // restore the style index, letting evaluate() recreate the SpillCell correctly.
+            // SpillCells of a dynamic array are transient; save their style as EmptyCell so
+            // undo can restore the style index, letting evaluate() recreate the SpillCell
+            // correctly. The spill cells of a CSE array are deleted together with their
+            // anchor and are saved as they are: restored as empty cells they would be read
+            // as blanks by formulas evaluated before the anchor.
             let data = match worksheet.sheet_data.get(&r) {
                 Some(s) => s
                     .iter()
                     .map(|(k, v)| {
-                        let cell = if let Cell::SpillCell { s, .. } = v {
-                            Cell::EmptyCell { s: *s }
-                        } else {
-                            v.clone()
+                        let cell = match v {
+                            Cell::SpillCell { a, .. }
+                                if matches!(
+                                    worksheet.cell(a.0, a.1),
+                                    Some(Cell::ArrayFormula {
+                                        kind: ArrayKind::Cse,
+                                        ..
+                                    })
+                                ) =>
+                            {
+                                v.clone()
+                            }
+                            Cell::SpillCell { s, .. } => Cell::EmptyCell { s: *s },
+                            _ => v.clone(),
                         };
                         (*k, cell)
                     })
@@ -1224,10 +1237,21 @@ impl<'a> UserModel<'a> {
             let mut data = HashMap::new();
             for (row_idx, row_data) in &worksheet.sheet_data {
                 if let Some(cell) = row_data.get(&c) {
-                    let saved = if let Cell::SpillCell { s, .. } = cell {
-                        Cell::EmptyCell { s: *s }
-                    } else {
-                        cell.clone()
+                    // (the spill cells of a CSE array are saved as they are, see `delete_rows`)
+                    let saved = match cell {
+                        Cell::SpillCell { a, .. }
+                            if matches!(
+                                worksheet.cell(a.0, a.1),
+                                Some(Cell::ArrayFormula {
+                                    kind: ArrayKind::Cse,
+                                    ..
+                                })
+                            ) =>
+                        {
+                            cell.clone()
+                        }
+                        Cell::SpillCell { s, .. } => Cell::EmptyCell { s: *s },
+                        _ => cell.clone(),
                     };
                     data.insert(*row_idx, saved);
                 }
